@@ -43,6 +43,34 @@ def take_records ():
 # Every condition returns None when it holds and raises Contract_Broken
 # otherwise. They only read public state of the objects.
 
+def cond_rhs (self):
+    """ the right-hand side holds, for every source, its voltage (times -j / (4.77783352 lambda), the constant of the
+        formulation), twice that on a pulse on the ground plane, and nothing else """
+    EVALS ['compute_rhs.sources'] += 1
+    b = np.asarray (self.rhs)
+    want = np.zeros (len (b), dtype = complex)
+    seen = {}
+    for s in self.sources:
+        seen [s.idx] = seen.get (s.idx, 0) + 1
+    if any (v > 1 for v in seen.values ()):
+        EVALS ['compute_rhs.sources:skipped-two-on-one-pulse'] += 1
+        return
+    for s in self.sources:
+        p = self.pulses [s.idx]
+        onplane = self.media is not None and bool (np.asarray (p.ground).any ())
+        want [s.idx] = -1j * complex (s.voltage) / (4.77783352 * self.wavelen) * (2 if onplane else 1)
+    n = max (np.abs (want).max (initial = 0), 1e-300)
+    d = float (np.abs (b - want).max (initial = 0) / n)
+    if d > 1e-12:
+        k = int (np.argmax (np.abs (b - want)))
+        raise Contract_Broken \
+            ( 'C07', 'compute_rhs.sources'
+            , 'right-hand side entry of pulse %d is %r, the sources give %r (pulse on the ground plane: %s)'
+              % (k + 1, complex (b [k]), complex (want [k]), bool (np.asarray (self.pulses [k].ground).any ()))
+            , d, 1e-12
+            )
+# end def cond_rhs
+
 def cond_solve_residual (self):
     EVALS ['compute_currents.residual'] += 1
     Z, I, b = self.Z, self.current, self.rhs
@@ -383,6 +411,7 @@ def install ():
     # Mininec
     M = MM.Mininec
     attach (M, 'compute_currents', cond_solve_residual, ['self'], have_ic)
+    attach (M, 'compute_rhs', cond_rhs, ['self'], have_ic)
     attach (M, 'compute', cond_power_sum, ['self'], have_ic)
     # far field / near field take optional arguments: plain wrappers keep kwargs
     orig_ff = M.compute_far_field
